@@ -207,6 +207,11 @@ def observe(tc, fc, text, exc_type, exc_msg, files):
             statuses.append(resp.status_code)
             if method == 'GET' and path == '/':
                 body = resp.get_data(as_text=True)
+            # what the client receives is what Content-Length announces: a page cut short has lost its end
+            clen = resp.headers.get('Content-Length')
+            if clen is not None and method != 'HEAD' and resp.status_code == 200 and int(clen) != len(resp.get_data()):
+                statuses[-1] = -3
+                o['_err'] = 'Content-Length %s but %d body bytes for %s %s' % (clen, len(resp.get_data()), method, path)
         except Exception as e:  # noqa
             statuses.append(-1)
             o['_err'] = repr(e)
